@@ -62,3 +62,257 @@ Theorem C02_every_reachable_state :
   forall d h, wf_dataset d = true -> wf_history d h = true -> Inv d (run d h).
 Proof. exact (fun d h Hd Hh => run_inv d Hd h Hh). Qed.
 Print Assumptions C02_every_reachable_state.
+
+(* =====================================================================================================
+   The two toy implementations of model.Model the shipped Dumb*Annealer configurations run on:
+   internal/pkg/model/models/dumb and internal/pkg/model/models/modumb (DumbModels.v).
+   Worlds hold several model structs (handles: an original and its DeepClones); operations are addressed
+   to a handle; the random pick of TryRandomChange is an argument.  The dumb clauses hold in EVERY world,
+   the modumb clauses in every well-formed world ([mw_wf], a boolean that every operation preserves) --
+   hence after every history of operations on any handles with any picks
+   (C02_dumb_all_interleavings, C02_modumb_all_interleavings).
+   ===================================================================================================== *)
+From Crem Require Import Base.Res DumbModels DumbModelsProofs.
+
+(* ---------------- dumb.Model (grid: thousandths) ---------------- *)
+
+(* while a change is only proposed, the reported value stays put *)
+Theorem C02_dumb_propose_keeps_reported_value :
+  forall w h up v, dw_value w h = Some v -> dw_value (dw_step w h (DTry up)) h = Some v.
+Proof. exact dw_propose_keeps_value. Qed.
+Print Assumptions C02_dumb_propose_keeps_reported_value.
+
+(* reverting restores the only observable the model has (no actions: the encoding is empty) *)
+Theorem C02_dumb_revert_exact :
+  forall w h up v, dw_value w h = Some v -> dw_value (dw_step (dw_step w h (DTry up)) h DRevert) h = Some v.
+Proof. exact dw_revert_exact. Qed.
+Print Assumptions C02_dumb_revert_exact.
+
+(* accepting moves ObjectiveValue by exactly the reported change (+1 or -1), wherever the value lies with
+   respect to MinimumObjectiveValue / MaximumObjectiveValue *)
+Theorem C02_dumb_accept_realises_reported_change :
+  forall w h up v, dw_value w h = Some v ->
+    exists c, dw_change (dw_step w h (DTry up)) h = Some c /\ (c = 1000 \/ c = -1000) /\
+              dw_value (dw_step (dw_step w h (DTry up)) h DAccept) h = Some (v + c).
+Proof. exact dw_accept_realises. Qed.
+Print Assumptions C02_dumb_accept_realises_reported_change.
+
+(* UndoChange after an accepted proposal is exact as well *)
+Theorem C02_dumb_undo_exact :
+  forall w h up v, dw_value w h = Some v ->
+    dw_value (dw_step (dw_step (dw_step w h (DTry up)) h DAccept) h DUndo) h = Some v.
+Proof. exact dw_undo_exact. Qed.
+Print Assumptions C02_dumb_undo_exact.
+
+(* whatever is done to one handle (an original or a clone), every other handle keeps its whole state *)
+Theorem C02_dumb_other_handles_untouched :
+  forall w h o h', h' <> h -> (h' < length (dw_models w))%nat ->
+    nth_error (dw_models (dw_step w h o)) h' = nth_error (dw_models w) h'.
+Proof. exact dw_handles_independent. Qed.
+Print Assumptions C02_dumb_other_handles_untouched.
+
+(* MinimumObjectiveValue / MaximumObjectiveValue are accepted and have no effect on anything reported:
+   erasing them from the world and from every SetParameters of a history changes no report *)
+Theorem C02_dumb_range_parameters_inert :
+  forall w l,
+    dw_obs (dw_run (dw_erase_range w) (map (fun ho => (fst ho, dop_erase_range (snd ho))) l)) = dw_obs (dw_run w l).
+Proof. exact dumb_range_inert. Qed.
+Print Assumptions C02_dumb_range_parameters_inert.
+
+(* all interleavings, spelled out: after ANY history (any handles, any picks, clones included) *)
+Theorem C02_dumb_all_interleavings :
+  forall hist h up v,
+    let w := dw_run dw_new hist in
+    dw_value w h = Some v ->
+    dw_value (dw_step w h (DTry up)) h = Some v /\
+    dw_value (dw_step (dw_step w h (DTry up)) h DRevert) h = Some v /\
+    (exists c, dw_change (dw_step w h (DTry up)) h = Some c /\ (c = 1000 \/ c = -1000) /\
+               dw_value (dw_step (dw_step w h (DTry up)) h DAccept) h = Some (v + c)) /\
+    (forall h' o, h' <> h -> dw_value (dw_step w h' o) h = Some v).
+Proof. exact dumb_all_interleavings. Qed.
+Print Assumptions C02_dumb_all_interleavings.
+
+(* "accept = reported change" is about ACCEPTING A PROPOSAL.  Stated for an arbitrary state it is false for
+   the code as it is: AcceptChange on a model that never proposed anything (a fresh model, or a fresh
+   DeepClone -- its variable's command is zero-valued and not yet done) sets ObjectiveValue to 0 while
+   the reported change is 0.  No explorer does that (they accept only what they proposed). *)
+Theorem C02_dumb_accept_in_any_state_refuted :
+  exists s, d_value (d_accept s) <> d_value s + d_change s.
+Proof. exists (mkDS 0 1000000 dcmd_fresh). vm_compute. discriminate. Qed.
+Print Assumptions C02_dumb_accept_in_any_state_refuted.
+
+(* non-vacuity / the range bounds really are ignored: start ON the minimum, propose downward, accept *)
+Example C02_dumb_example_outward_accept_at_the_minimum :
+  dw_obs (dw_run dw_new [(0%nat, DSetParams (Some 0) (Some 0) (Some 2000000)); (0%nat, DInit);
+                         (0%nat, DTry false); (0%nat, DAccept)]) = [[-1000; -1000; -1000]].
+Proof. vm_compute. reflexivity. Qed.
+Example C02_dumb_example_clone_then_diverge :
+  dw_obs (dw_run dw_new [(0%nat, DDo true); (0%nat, DClone); (1%nat, DTry false); (1%nat, DAccept); (0%nat, DUndo)])
+  = [[1000000; 1000; 1001000]; [1000000; -1000; 1000000]].
+Proof. vm_compute. reflexivity. Qed.
+
+(* ---------------- modumb.Model (grid: hundredths) ---------------- *)
+
+(* while a change is only proposed, every total and every per-unit value of EVERY handle stays put *)
+Theorem C02_modumb_propose_keeps_reported_values :
+  forall w hi pick w1, mw_step w hi (MTry pick) = Ok w1 ->
+    forall hj b, hbody w hj = Some b -> exists b1, hbody w1 hj = Some b1 /\ same_values b b1.
+Proof. exact modumb_propose_keeps_values. Qed.
+Print Assumptions C02_modumb_propose_keeps_reported_values.
+
+(* the change reported for the proposal is the picked action's -(k+1) (activation) / +(k+1) (deactivation) *)
+Theorem C02_modumb_propose_reports_the_action_change :
+  forall w hi pick w1 b, mw_step w hi (MTry pick) = Ok w1 -> hbody w hi = Some b -> mb_active b <> [] ->
+    (pick < length (mb_active b))%nat /\
+    hbody w1 hi = Some (observe (flip b pick) pick) /\
+    mv_change (mb_var (observe (flip b pick) pick) (act_obj pick)) =
+      (if is_active b pick then - obj_cost (act_obj pick) else obj_cost (act_obj pick)).
+Proof. exact modumb_propose_reports. Qed.
+Print Assumptions C02_modumb_propose_reports_the_action_change.
+
+(* reverting restores every observable of EVERY handle: action states (hence the solution encoding, a
+   function of them), totals, per-unit values -- in any world, well-formed or not *)
+Theorem C02_modumb_revert_exact :
+  forall w hi pick w1, mw_step w hi (MTry pick) = Ok w1 ->
+    exists w2, mw_step w1 hi MRevert = Ok w2 /\
+      forall hj b, hbody w hj = Some b -> exists b2, hbody w2 hj = Some b2 /\ same_obs b b2.
+Proof. exact modumb_revert_exact. Qed.
+Print Assumptions C02_modumb_revert_exact.
+
+Corollary C02_modumb_revert_restores_encoding :
+  forall (A : Type) (encode : list bool -> A) w hi pick w1, mw_step w hi (MTry pick) = Ok w1 ->
+    exists w2, mw_step w1 hi MRevert = Ok w2 /\
+      forall hj b, hbody w hj = Some b -> exists b2, hbody w2 hj = Some b2 /\ encode (mb_active b2) = encode (mb_active b).
+Proof.
+  intros A encode w hi pick w1 Ht. destruct (modumb_revert_exact w hi pick w1 Ht) as (w2 & Hs & H).
+  exists w2. split; [exact Hs|]. intros hj b Hb. destruct (H hj b Hb) as (b2 & Hb2 & Hact & _).
+  exists b2. split; [exact Hb2|]. rewrite Hact. reflexivity.
+Qed.
+Print Assumptions C02_modumb_revert_restores_encoding.
+
+(* accepting moves each objective by exactly the change reported for it while the proposal was pending *)
+Theorem C02_modumb_accept_realises_reported_change :
+  forall w hi pick w1 b b1,
+    mw_wf w = true -> mw_step w hi (MTry pick) = Ok w1 -> hbody w hi = Some b -> hbody w1 hi = Some b1 ->
+    exists w2 b2, mw_step w1 hi MAccept = Ok w2 /\ hbody w2 hi = Some b2 /\
+      mb_active b2 = mb_active b1 /\ settled b2 = true /\
+      forall k, mv_total (mb_var b2 k) = mv_total (mb_var b k) + mv_change (mb_var b1 k).
+Proof. exact modumb_accept_realises. Qed.
+Print Assumptions C02_modumb_accept_realises_reported_change.
+
+(* locality: the model HAS planning-unit-local values.  From a state without a pending proposal, propose +
+   accept alters per-unit values of the picked action's own objective in its own planning unit only
+   (unit = pick / 3, objective = pick mod 3), and there by exactly the reported change *)
+Theorem C02_modumb_locality :
+  forall w hi pick w1 b, mw_step w hi (MTry pick) = Ok w1 -> hbody w hi = Some b -> settled b = true ->
+    exists w2 b1 b2, hbody w1 hi = Some b1 /\ mw_step w1 hi MAccept = Ok w2 /\ hbody w2 hi = Some b2 /\
+      (forall k pu, (k <> act_obj pick \/ pu <> act_pu pick) -> mv_vals (mb_var b2 k) pu = mv_vals (mb_var b k) pu) /\
+      (mb_active b <> [] ->
+         mv_vals (mb_var b2 (act_obj pick)) (act_pu pick) =
+         mv_vals (mb_var b (act_obj pick)) (act_pu pick) + mv_change (mb_var b1 (act_obj pick))).
+Proof. exact modumb_locality. Qed.
+Print Assumptions C02_modumb_locality.
+
+(* UndoChange after propose + accept restores every observable of every handle *)
+Theorem C02_modumb_undo_exact :
+  forall w hi pick w1 b, mw_step w hi (MTry pick) = Ok w1 -> hbody w hi = Some b -> settled b = true -> mb_active b <> [] ->
+    exists w2 w3, mw_step w1 hi MAccept = Ok w2 /\ mw_step w2 hi MUndo = Ok w3 /\
+      forall hj bj, hbody w hj = Some bj -> exists b3, hbody w3 hj = Some b3 /\ same_obs bj b3.
+Proof. exact modumb_undo_exact. Qed.
+Print Assumptions C02_modumb_undo_exact.
+
+(* a decision leaves nothing pending, so in the explorers' discipline (propose; accept | revert) every proposal
+   starts from a settled state and C02_modumb_locality applies to it *)
+Theorem C02_modumb_decision_settles :
+  forall w hi o w' b, (o = MAccept \/ o = MRevert) -> mw_step w hi o = Ok w' -> hbody w' hi = Some b -> settled b = true.
+Proof. exact modumb_decision_settles. Qed.
+Print Assumptions C02_modumb_decision_settles.
+
+(* every world a program can reach is well-formed *)
+Theorem C02_modumb_every_reachable_world :
+  forall hist w, mw_run mw_new hist = Ok w -> mw_wf w = true.
+Proof. exact (fun hist w H => mw_run_wf hist mw_new w mw_new_wf H). Qed.
+Print Assumptions C02_modumb_every_reachable_world.
+
+(* an operation on a handle touches only the body that handle uses and the body its last-applied action
+   lives in: a model initialised on its own is not moved by operations on other models ... *)
+Theorem C02_modumb_operations_touch_only_own_bodies :
+  forall w hi h o w' bj b,
+    nth_error (mw_handles w) hi = Some h -> mw_step w hi o = Ok w' ->
+    mh_body h <> Some bj -> (forall i, mh_last h <> LAct bj i) ->
+    nth_error (mw_bodies w) bj = Some b -> nth_error (mw_bodies w') bj = Some b.
+Proof. exact modumb_step_touches. Qed.
+Print Assumptions C02_modumb_operations_touch_only_own_bodies.
+
+(* all interleavings, spelled out: after ANY history that does not panic *)
+Theorem C02_modumb_all_interleavings :
+  forall hist w hi pick w1 b,
+    mw_run mw_new hist = Ok w -> mw_step w hi (MTry pick) = Ok w1 -> hbody w hi = Some b ->
+    (forall hj bj, hbody w hj = Some bj -> exists b1, hbody w1 hj = Some b1 /\ same_values bj b1) /\
+    (exists w2, mw_step w1 hi MRevert = Ok w2 /\
+       forall hj bj, hbody w hj = Some bj -> exists b2, hbody w2 hj = Some b2 /\ same_obs bj b2) /\
+    (exists b1 w2 b2, hbody w1 hi = Some b1 /\ mw_step w1 hi MAccept = Ok w2 /\ hbody w2 hi = Some b2 /\
+       mb_active b2 = mb_active b1 /\ settled b2 = true /\
+       forall k, mv_total (mb_var b2 k) = mv_total (mb_var b k) + mv_change (mb_var b1 k)).
+Proof. exact modumb_all_interleavings. Qed.
+Print Assumptions C02_modumb_all_interleavings.
+
+(* ---- what does NOT hold for the code as it is (witnesses; each reproduced on the real code by the harness) ---- *)
+Definition modumb_report (hist : list (nat * mop)) : option (list (option (list bool * list Z))) :=
+  match mw_run mw_new hist with
+  | Ok w => Some (map (option_map (fun o => (mo_active o, mo_totals o))) (mw_obs w))
+  | Panic => None
+  end.
+Definition one_unit : nat * mop := (0%nat, MSetParams None None None (Some 1%nat)).
+
+(* ... but a DeepClone that has not been initialised itself SHARES the variables and actions of its original:
+   an accepted change on the clone (handle 1) moves what the original (handle 0) reports *)
+Theorem C02_modumb_clone_shares_state_until_initialised_refuted :
+  modumb_report [one_unit; (0%nat, MInit); (0%nat, MClone)] =
+    Some [Some ([false; false; false], [100000; 200000; 300000]); Some ([false; false; false], [100000; 200000; 300000])] /\
+  modumb_report [one_unit; (0%nat, MInit); (0%nat, MClone); (1%nat, MDo 0%nat)] =
+    Some [Some ([true; false; false], [99900; 200000; 300000]); Some ([true; false; false], [99900; 200000; 300000])].
+Proof. split; vm_compute; reflexivity. Qed.
+Print Assumptions C02_modumb_clone_shares_state_until_initialised_refuted.
+
+(* even an initialised clone keeps the original's lastApplied pointer: RevertChange on the clone before it
+   proposed anything itself toggles the ORIGINAL's action without any valuation *)
+Theorem C02_modumb_stale_last_applied_refuted :
+  modumb_report [one_unit; (0%nat, MInit); (0%nat, MDo 0%nat); (0%nat, MClone); (1%nat, MInit)] =
+    Some [Some ([true; false; false], [99900; 200000; 300000]); Some ([false; false; false], [100000; 200000; 300000])] /\
+  modumb_report [one_unit; (0%nat, MInit); (0%nat, MDo 0%nat); (0%nat, MClone); (1%nat, MInit); (1%nat, MRevert)] =
+    Some [Some ([false; false; false], [99900; 200000; 300000]); Some ([false; false; false], [100000; 200000; 300000])].
+Proof. split; vm_compute; reflexivity. Qed.
+Print Assumptions C02_modumb_stale_last_applied_refuted.
+
+(* RevertChange is not an undo of an ACCEPTED change (UndoChange is): it toggles the action back and leaves the values *)
+Theorem C02_modumb_revert_after_accept_refuted :
+  modumb_report [one_unit; (0%nat, MInit); (0%nat, MTry 0%nat); (0%nat, MAccept); (0%nat, MRevert)] =
+    Some [Some ([false; false; false], [99900; 200000; 300000])].
+Proof. vm_compute. reflexivity. Qed.
+Print Assumptions C02_modumb_revert_after_accept_refuted.
+
+(* RevertChange / UndoChange before the model applied any action: a method call on a nil interface *)
+Example C02_modumb_revert_before_any_change_panics :
+  mw_run mw_new [(0%nat, MInit); (0%nat, MRevert)] = Panic /\ mw_run mw_new [(0%nat, MInit); (0%nat, MUndo)] = Panic.
+Proof. split; vm_compute; reflexivity. Qed.
+
+(* UndoableValue reports the planning UNIT's prospective value, not the variable's (cf. the catchment fix 8740ef2):
+   2 units, start 1000.00 in unit 0, propose action 3 (unit 1, Objective_0): undoable -1.00, total 1000.00, change -1.00 *)
+Example C02_modumb_undoable_value_is_per_unit :
+  match mw_run mw_new [(0%nat, MSetParams None None None (Some 2%nat)); (0%nat, MInit); (0%nat, MTry 3%nat)] with
+  | Ok w => map (option_map (fun o => (mo_totals o, mo_changes o, mo_undoable o))) (mw_obs w)
+  | Panic => []
+  end = [Some ([100000; 200000; 300000], [-100; 0; 0], [-100; 0; 0])].
+Proof. vm_compute. reflexivity. Qed.
+
+(* non-vacuity: a history with clones, a proposal on it succeeds, the world is well-formed, rounding of the
+   starting values (0.125 -> 0.13, -0.125 -> -0.13, 12.344 -> 12.34) *)
+Example C02_modumb_example_history :
+  match mw_run mw_new [(0%nat, MSetParams (Some (1 # 8)) (Some (-1 # 8)) (Some (12344 # 1000)) (Some 2%nat)); (0%nat, MInit);
+                       (0%nat, MTry 4%nat); (0%nat, MAccept); (0%nat, MClone); (1%nat, MInit); (1%nat, MTry 5%nat)] with
+  | Ok w => (mw_wf w, map (option_map (fun o => (mo_active o, mo_totals o, mo_changes o, mo_vals o))) (mw_obs w))
+  | Panic => (false, [])
+  end = (true, [Some ([false; false; false; false; true; false], [13; -213; 1234], [0; 0; 0], [[13; 0]; [-13; -200]; [1234; 0]]);
+                Some ([false; false; false; false; false; true], [13; -13; 1234], [0; 0; -300], [[13; 0]; [-13; 0]; [1234; 0]])]).
+Proof. vm_compute. reflexivity. Qed.
